@@ -380,6 +380,143 @@ def run_sites(chk, rng, quick):
         chk.sample({"site": x[4], "program": x[5]})
 
 
+# ---------------------------------------------------------------- executed call sites (which body RUNS)
+EXEC_SITES = ["after", "sibling", "lambda", "deep", "deep-lambda"]
+
+
+def gen_exec_set(rng):
+    """user-only overloads of `fo` over 2-3 scope levels (generic enclosing functions), each returning its own int tag, and
+    2-3 calls with different argument types that the ranking rule resolves to a unique winner each"""
+    for _ in range(30):
+        nargs = rng.choice([1, 1, 2])
+        ncalls = rng.choice([2, 2, 3])
+        calls = []
+        while len(calls) < ncalls:
+            a = [rng.choice(ARG_EXPRS[:10]) for _ in range(nargs)]
+            if [t for t, _ in a] not in [[t for t, _ in c] for c in calls]:
+                calls.append(a)
+        nlevels = rng.choice([2, 3, 3])
+        k = rng.choice([2, 3, 3, 4, 5])
+        ovs = []
+        for i in range(k):
+            ov = gen_overload(rng, nargs, rng.choice(calls))
+            ovs.append({"tag": 7001 + i, "id": 7001 + i, "ov": ov, "level": rng.randrange(nlevels), "forward": False, "late": False})
+        if not any(o["level"] == nlevels - 1 for o in ovs):
+            rng.choice(ovs)["level"] = nlevels - 1
+        outer_gens = rng.sample(["T", "U", "Q"], rng.choice([0, 0, 1, 2]))
+        wrap_gens = rng.sample(["T", "U", "Q", "W"], rng.choice([0, 0, 1, 2]))
+        for o in ovs:
+            if o["level"] >= 1 and o["ov"][0] and rng.random() < 0.4:
+                o["ov"] = rename_generics(rng, o["ov"], outer_gens + (wrap_gens if o["level"] == 2 else []))
+        ovs[0]["encl"] = (outer_gens, wrap_gens)
+        cands = [(o["id"], "s", bool(o["ov"][0]), o["ov"][1], o["ov"][2]) for o in ovs]
+        wins = [rank_oracle(cands, [t for t, _ in c]) for c in calls]
+        if all(w[0] == "ok" for w in wins) and len({w[1] for w in wins}) > 1:
+            return calls, nlevels, ovs, [w[1] for w in wins]
+    return None
+
+
+def exec_program(nlevels, ovs, site, call_exprs):
+    outer_gens, wrap_gens = ovs[0]["encl"]
+    seq = "[" + ", ".join(call_exprs) + "]"
+    R = "Sequence<int>"
+
+    def level_text(lv, indent):
+        return "".join(decl("fo", o["tag"], o["ov"], indent) for o in ovs if o["level"] == lv)
+
+    def header(fname, gens, prefix):
+        g = ("<" + ", ".join(gens) + ">") if gens else ""
+        return f"fn {fname}{g}({', '.join(f'{prefix}{i}: {x}' for i, x in enumerate(gens))})->{R}{{\n"
+
+    def site_text(ind):
+        if site == "after":
+            return f"{ind}{seq}\n"
+        if site == "sibling":
+            return f"{ind}fn sib()->{R}{{ {seq} }}\n{ind}sib()\n"
+        if site == "lambda":
+            return f"{ind}let lam = ()->{{ {seq} }};\n{ind}lam()\n"
+        if site == "deep":
+            return f"{ind}fn sib()->{R}{{\n{ind}  fn deeper()->{R}{{ {seq} }}\n{ind}  deeper()\n{ind}}}\n{ind}sib()\n"
+        if site == "deep-lambda":
+            return f"{ind}fn sib()->{R}{{\n{ind}  let lam = ()->{{ {seq} }};\n{ind}  lam()\n{ind}}}\n{ind}sib()\n"
+        raise ValueError(site)
+    out = level_text(0, "")
+    out += header("outer", outer_gens, "q") + level_text(1, "  ")
+    if nlevels == 3:
+        out += "  " + header("wrap", wrap_gens, "w") + level_text(2, "    ") + site_text("    ") + "  }\n"
+        out += f"  wrap({', '.join('0' for _ in wrap_gens)})\n"
+    else:
+        out += site_text("  ")
+    out += "}\n" + f"let r = outer({', '.join('0' for _ in outer_gens)});\n"
+    return out
+
+
+def exec_model_lines(nlevels, ovs, site, calls):
+    """one `resolve_at` request per call: the scope chain of the call site (helper scopes register nothing)"""
+    inner = nlevels - 1
+    extra = {"after": 0, "sibling": 1, "lambda": 1, "deep": 2, "deep-lambda": 2}[site]
+    levels = [f"{inner + 1 + i} - 0" for i in range(extra, 0, -1)]
+    for lv in range(inner, -1, -1):
+        cs = []
+        for o in ovs:
+            if o["level"] == lv:
+                gens, ps, nreq = o["ov"]
+                cs.append(f"s {o['id']} " + tstr(FUNC(gens if gens else None, ps, nreq, I)))
+        levels.append(f"{lv} - {len(cs)}" + ("" if not cs else " " + " ".join(cs)))
+    chain = f"{len(levels)} " + " ".join(levels)
+    return [f"ovl resolve_at {len(c)} " + " ".join(tstr(t) for t, _ in c) + " " + chain for c in calls]
+
+
+def run_exec_sites(chk, rng, quick):
+    n = 45 if quick else 700
+    progs = []
+    for _ in range(n):
+        g = gen_exec_set(rng)
+        if g is None:
+            chk.count("exec:skipped-no-unique-winners")
+            continue
+        calls, nlevels, ovs, wins = g
+        exprs = [f"fo({', '.join(e for _, e in c)})" for c in calls]
+        orders = list(itertools.permutations(range(len(calls))))
+        for site in EXEC_SITES:
+            mlines = exec_model_lines(nlevels, ovs, site, calls)
+            for order in orders:
+                p = exec_program(nlevels, ovs, site, [exprs[i] for i in order])
+                progs.append((site, nlevels, order, [wins[i] for i in order], p, [mlines[i] for i in order]))
+    resps = run_harness([{"op": "run", "src": x[4], "get": ["r"]} for x in progs], per_req_timeout=30.0)
+    flat = [l for x in progs for l in x[5]]
+    mflat = run_model(flat)
+    mi = 0
+    for (site, nlevels, order, want, p, mlines), resp in zip(progs, resps):
+        gms = mflat[mi:mi + len(mlines)]
+        mi += len(mlines)
+        chk.evaluations += 1
+        chk.count("exec:" + site)
+        chk.count(f"exec:levels-{nlevels}")
+        replay = {"op": "run", "src": p, "get": ["r"], "site": site, "expected": want}
+        if "panic" in resp or "abort" in resp or "hang" in resp:
+            chk.violation(f"exec:{site}:panic", f"panic when running {p!r}: {json.dumps(resp)[:300]}", replay)
+            continue
+        c = resp.get("compile")
+        if c != "ok":
+            chk.violation(f"exec:{site}:expected-ok-got-{c.get('class')}",
+                          f"call site '{site}': every call has a unique best overload {want}, the compiler says {c.get('class')}: "
+                          f"{c.get('msg', '')[:160]}; program: {p!r}", replay)
+            continue
+        d = resp.get("vals", {}).get("r", "?") if resp.get("inst") == "ok" else "viol " + json.dumps(resp.get("inst"))
+        got = [int(x) for x in re.findall(r"\(int S (\d+)\)", d)] if d.startswith("(seq") else d
+        if got != want:
+            chk.violation(f"exec:{site}:wrong-body-ran",
+                          f"call site '{site}' ({nlevels} scope levels), calls in order {list(order)}: the bodies that ran returned {got}, "
+                          f"the best overloads are {want}; program: {p!r}", dict(replay, got=got))
+            continue
+        gm = [int(x[3:]) if x.startswith("ok ") else x for x in gms]
+        if gm != want:
+            chk.violation("tie:ovl:resolve_at", f"model {gms} vs implementation {got}: {p!r}", dict(replay, model_out=gms), no_input=True)
+    for x in progs[:1]:
+        chk.sample({"executed-site": x[0], "program": x[4]})
+
+
 def run(chk):
     rng = chk.rng
     quick = chk.tier == "quick"
@@ -527,6 +664,7 @@ def run(chk):
         chk.sample({"program": p})
 
     run_sites(chk, rng, quick)
+    run_exec_sites(chk, rng, quick)
 
     # the repaired witness
     w = 'fn eq<T>(a:Sequence<T>,b:Sequence<T>)->bool{false}  let r=[1]==[1];'
